@@ -185,6 +185,10 @@ reg(Spec(
         "combined runs: a login is abstracted to (record index, forwarded PID, handler clock, credential id non-empty); cleanups may fall between a rendez-vous and its RemoteLogin (more interleavings than the code has)",
         "correlator calls are atomic (C03); the tracker component of a pipeline run is the sequential correlator on the run's own history",
         DAEMON_ASSUME,
+        "large events (both stages): execve events whose argument list makes the UserAction line 3-70 KiB, account names / certificate key ids of some KiB (UserLogin lines beyond one page, and every "
+        "UserAction of such a session: many short audit records, each a large output line). Daemon stage, every fourth scenario: while the audit pipeline works through these the harness keeps a burst of "
+        "stand-alone failure lines going on the sshd pipe (until the events file holds the UserActions the scenario must produce; bounded), GOMAXPROCS >= 2, no pacing; every line of the events file must "
+        "be one whole JSON event. That a single write(2) of any size on an O_APPEND regular file is not interleaved with another is the kernel's behaviour, observed",
     ],
     modelled=["cmd/namedpipe.go wiring (one event writer, unbuffered logins channel)", "order of write and hand-off in processors/sshd", "sessiontracker (shared model)"],
 ))
